@@ -280,7 +280,7 @@ pub fn mutation_bytes(quick: bool) -> Vec<u8> {
 /// The smaller mutation alphabet used by the CLI part.
 pub fn mutation_bytes_cli(quick: bool) -> Vec<u8> {
     if quick {
-b"[\":\\\n&\x00\xff".to_vec()
+        b"\"\\\n\xff".to_vec()
     } else {
         mutation_bytes(true)
     }
